@@ -20,7 +20,7 @@ var (
 
 func scenarios(tier string) []engine.Scenario {
 	var scs []engine.Scenario
-	exhaustDeg, maxDeg := 5, 31
+	exhaustDeg, maxDeg := 6, 31
 	if tier == "thorough" {
 		exhaustDeg, maxDeg = 8, 63
 	}
@@ -91,7 +91,7 @@ func main() {
 		Level: "exploration",
 		Rule: "Polynomial evaluation: one scenario = scheme/mode/parameter set × chunk of (formal degree, coefficient mask) shapes; a leaf = shape × kind of polynomial object " +
 			"(bignum.Polynomial, Polynomial, lazy Polynomial, PolynomialVector with 4 slot mappings) × (entry point, input level from need-1 to max, input scale, target scale, declared parity, basis/interval) " +
-			"under the stated deviation bound. Shapes: EVERY mask for degree <=5 (quick) / <=8 (thorough), structured masks up to degree 31 / 63. " +
+			"under the stated deviation bound. Shapes: EVERY mask for degree <=6 (quick) / <=8 (thorough), structured masks up to degree 31 / 63. " +
 			"Oracle: Horner mod t (BGV) / big.Float evaluation with a worst-case ε (CKKS); levels consumed == ceil(log2(deg+1)) (0 in scale-invariant mode), output scale == target scale, " +
 			"need-1 levels refused with an error. bignum: Evaluate/ChangeOfBasis/Factorize against own big.Float arithmetic. Composite circuits: grid of inputs on the stated domain.",
 		Assumptions: []string{
